@@ -658,6 +658,11 @@ def generators_to_loops(tree):
                         new = [ast.For(target=ast.Name(id=nm, ctx=ast.Store()), iter=v.args[0], body=[ast.Expr(value=ast.YieldFrom(value=ast.Name(id=nm, ctx=ast.Load())))], orelse=[])]
                     elif isinstance(v, (ast.GeneratorExp, ast.ListComp)) and ok_targets(v):
                         new = wrap(v.generators, [ast.Expr(value=ast.Yield(value=v.elt))])
+                elif isinstance(s, ast.For) and isinstance(s.target, ast.Name) and isinstance(s.iter, ast.GeneratorExp) and not s.orelse and len(s.iter.generators) == 1 \
+                        and isinstance(s.iter.generators[0].target, ast.Name) and s.iter.generators[0].target.id == s.target.id and isinstance(s.iter.elt, ast.Name) \
+                        and s.iter.elt.id == s.target.id and not s.iter.generators[0].is_async:
+                    # `for x in (x for x in I if C): BODY` (a filtering generator under the same name) is `for x in I: if C: BODY`
+                    new = wrap(s.iter.generators, s.body)
                 elif isinstance(s, ast.For) and isinstance(s.target, ast.Name) and isinstance(s.iter, (ast.GeneratorExp, ast.ListComp)) and not s.orelse and ok_targets(s.iter):
                     x = s.target.id
                     comp = s.iter
@@ -1152,6 +1157,44 @@ def tail_iteration_to_recursion(tree):
     return count
 
 
+def iterate_self(tree):
+    """N38  in a class whose __iter__ is `return iter(self.A)`, a loop / comprehension over `self.A` (also under enumerate) inside its methods is the loop
+    over `self`"""
+    count = [0]
+    for cls in [n for n in ast.walk(tree) if isinstance(n, ast.ClassDef)]:
+        attr = None
+        for m in cls.body:
+            if isinstance(m, ast.FunctionDef) and m.name == '__iter__':
+                body = [b for b in m.body if not (isinstance(b, ast.Expr) and isinstance(b.value, ast.Constant))]
+                if len(body) == 1 and isinstance(body[0], ast.Return) and isinstance(body[0].value, ast.Call) and isinstance(body[0].value.func, ast.Name) and body[0].value.func.id == 'iter' \
+                        and len(body[0].value.args) == 1 and isinstance(body[0].value.args[0], ast.Attribute) and isinstance(body[0].value.args[0].value, ast.Name) \
+                        and body[0].value.args[0].value.id == 'self':
+                    attr = body[0].value.args[0].attr
+        if attr is None:
+            continue
+
+        def is_attr(e):
+            return isinstance(e, ast.Attribute) and e.attr == attr and isinstance(e.value, ast.Name) and e.value.id == 'self'
+
+        def fix(holder, fld):
+            e = getattr(holder, fld)
+            if is_attr(e):
+                setattr(holder, fld, ast.copy_location(ast.Name(id='self', ctx=ast.Load()), e))
+                count[0] += 1
+            elif isinstance(e, ast.Call) and isinstance(e.func, ast.Name) and e.func.id == 'enumerate' and e.args and is_attr(e.args[0]):
+                e.args[0] = ast.copy_location(ast.Name(id='self', ctx=ast.Load()), e.args[0])
+                count[0] += 1
+        for m in cls.body:
+            if not isinstance(m, ast.FunctionDef) or m.name == '__iter__':
+                continue
+            for n in ast.walk(m):
+                if isinstance(n, ast.For):
+                    fix(n, 'iter')
+                elif isinstance(n, ast.comprehension):
+                    fix(n, 'iter')
+    return count[0]
+
+
 def merge_twin_branches(tree):
     """N30: `if c: T(A) else: T(B)` where both arms are the same single statement up to one sub-expression (the same call / assignment with
     one differing argument or value) -> `T(A if c else B)`."""
@@ -1235,6 +1278,7 @@ def merge_twin_branches(tree):
 def normalize(tree):
     n = Normalizer()
     tree = n.visit(tree)
+    n.counts['iterate_self'] = iterate_self(tree)
     n.counts['generators_to_loops'] = generators_to_loops(tree)
     n.counts['any_counters'] = any_to_loop_and_counters_to_enumerate(tree)
     n.counts['dict_updates_merged'] = merge_dict_updates(tree)
